@@ -317,17 +317,25 @@ func checkBudgetTransport(r *Run, prog *Program, a *Anchors, newParser, maxExprO
 	// WithMaxExpressions stores its parameter into options.withMaxExpressions (C18 checks all constructors; here the one field)
 	wme := prog.BexprSSA.Func("WithMaxExpressions")
 	okCtor := false
-	if wme != nil && len(wme.AnonFuncs) == 1 {
-		for _, b := range wme.AnonFuncs[0].Blocks {
-			for _, ins := range b.Instrs {
-				if st, ok := ins.(*ssa.Store); ok {
-					if fa, ok := st.Addr.(*ssa.FieldAddr); ok && fieldName(fa.X.Type(), fa.Field) == optField(prog, "WithMaxExpressions") {
-						if isCaptured(st.Val) {
-							okCtor = true
-						}
-					}
+	if wme != nil {
+		// decided on the effect of the returned option (a closure or a bound method of a setting type): one path, one store,
+		// into the budget field, of the constructor's own parameter
+		paths := optionEffect(prog, wme)
+		okCtor = len(paths) == 1 && !paths[0].opaque
+		n := 0
+		for _, op := range paths {
+			for _, st := range op.stores {
+				if st.field == "" {
+					continue
+				}
+				n++
+				if st.field != optField(prog, "WithMaxExpressions") || !ownParameter(op.sm.St, st.val, 0) {
+					okCtor = false
 				}
 			}
+		}
+		if n != 1 {
+			okCtor = false
 		}
 	}
 	r.Check(pfx+".transport", "WithMaxExpressions→options", "options.go", okCtor, "WithMaxExpressions must store its parameter, unmodified, into the budget option")
